@@ -1205,10 +1205,23 @@ def add_state_value_equations(node: ast.Node) -> None:
 def add_variable_value_statements(node: ast.Node) -> None:
     # we do this here, instead of in flatten_class, because symbol values
     # inside flattened classes may be modified later by modify_class().
+    #
+    # Declaration assignments of outputs and protected variables are evaluated,
+    # in declaration order, before the algorithm section, whose statements may
+    # read them or assign to the same variable again ("output Real y := 0;"
+    # followed by "y := y + x;"). The declaration value of an input is only a
+    # default for an argument that is not passed, so it must not be executed
+    # ahead of the algorithm section.
+    declaration_statements = []
     for sym in node.symbols.values():
         if not (isinstance(sym.value, ast.Primary) and sym.value.value is None):
-            node.statements.append(ast.AssignmentStatement(left=[sym], right=sym.value))
+            statement = ast.AssignmentStatement(left=[sym], right=sym.value)
+            if "input" in sym.prefixes:
+                node.statements.append(statement)
+            else:
+                declaration_statements.append(statement)
             sym.value = ast.Primary(value=None)
+    node.statements[:0] = declaration_statements
 
 
 class StateAnnotator(TreeListener):
